@@ -1003,6 +1003,7 @@ func runLookupSync(lc *lsCase, dir string) {
 			pubDone <- res{resp.StatusCode, nil}
 		}()
 		extra := 0
+		var bystanderTook time.Duration
 		if blocking {
 			// while the creating request waits for the faulty side, other publishers find the topic and publish to it
 			time.Sleep(150 * time.Millisecond)
@@ -1010,17 +1011,8 @@ func runLookupSync(lc *lsCase, dir string) {
 			tp := time.Now()
 			if st, _, err := nd.post("/pub?topic=bystander", []byte("b")); err != nil || st != 200 {
 				lc.failf("[stall] publish to an existing topic failed while another topic's creation was waiting for a faulty nsqlookupd: %v %d", err, st)
-			} else if d := time.Since(tp); d > 400*time.Millisecond && time.Since(t0) < 1200*time.Millisecond {
-				// (nsqd's own limit for the query is 600 ms: a publish that took that long sat behind it)
-				stillWaiting := true
-				select {
-				case r := <-pubDone:
-					pubDone <- r
-					stillWaiting = false
-				default:
-				}
-				_ = stillWaiting
-				lc.failf("[stall] one nsqlookupd's HTTP side was faulty (%s) and kept the creation of a topic waiting; a publish to ANOTHER topic, which has existed all along, took %s meanwhile", mode, d.Round(time.Millisecond))
+			} else {
+				bystanderTook = time.Since(tp)
 			}
 			for i := 0; i < 5; i++ {
 				if st, _, err := nd.post("/pub?topic="+topic, []byte(fmt.Sprintf("meanwhile-%d", i))); err == nil && st == 200 {
@@ -1045,6 +1037,15 @@ func runLookupSync(lc *lsCase, dir string) {
 			return
 		}
 		lc.SyncMs = time.Since(t0).Milliseconds()
+		if bystanderTook > 300*time.Millisecond {
+			// (nsqd's own limit for the query is 600 ms, the publish was sent 150 ms into it.)  The same publish once more, now
+			// that nothing is waiting for anybody, says what this machine needs for it at the moment
+			tp := time.Now()
+			nd.post("/pub?topic=bystander", []byte("b2"))
+			if ctl := time.Since(tp); bystanderTook > 5*ctl+100*time.Millisecond {
+				lc.failf("[stall] one nsqlookupd's HTTP side was faulty (%s) and kept the creation of a topic waiting; a publish to ANOTHER topic, which has existed all along, took %s meanwhile (and %s afterwards)", mode, bystanderTook.Round(time.Millisecond), ctl.Round(time.Millisecond))
+			}
+		}
 		if blocking {
 			// every channel the healthy nsqlookupd knew holds everything the topic has accepted so far, the messages that
 			// came in while the topic was being set up included
